@@ -15,13 +15,14 @@ Local Open Scope Z_scope.
 (** Rejection clause.  If the object is not an instance of BaseDetector / BaseCallback, or
     the protocol is not in range(HIGHEST_PROTOCOL+1) as Python's [in] decides it, save raises
     (TypeError resp. ValueError; the type is checked first) and the file system is the SAME
-    function as before: the code validates before it opens the file.  No assumption on pickle. *)
+    function as before: the code validates before it opens the file (whichever way the pickle
+    is then written, [w]).  No assumption on pickle. *)
 Theorem C15_rejects_before_write :
   forall (obj : Type) (kind_of : obj -> kind) (picklable : obj -> bool) (bytes : Type) (empty_file : bytes)
          (dumps dump_partial : obj -> Z -> bytes) (dir_exists : string -> bool)
-         (o : obj) (path : string) (pr : pyproto) (f : fs bytes),
+         (w : write_order) (o : obj) (path : string) (pr : pyproto) (f : fs bytes),
   is_savable (kind_of o) = false \/ proto_in_range pr = false ->
-  exists e, save obj kind_of picklable bytes empty_file dumps dump_partial dir_exists o path pr f = (f, Raise e)
+  exists e, save obj kind_of picklable bytes empty_file dumps dump_partial dir_exists w o path pr f = (f, Raise e)
             /\ (e = TypeError \/ e = ValueError).
 Proof. exact rejects_before_write. Qed.
 Print Assumptions C15_rejects_before_write.
@@ -31,15 +32,15 @@ Print Assumptions C15_rejects_before_write.
 Theorem C15_rejected_load_unchanged :
   forall (obj : Type) (kind_of : obj -> kind) (picklable : obj -> bool) (bytes : Type) (empty_file : bytes)
          (dumps dump_partial : obj -> Z -> bytes) (loads : bytes -> res obj) (dir_exists : string -> bool)
-         (o : obj) (path : string) (pr : pyproto) (f : fs bytes) (q : string),
+         (w : write_order) (o : obj) (path : string) (pr : pyproto) (f : fs bytes) (q : string),
   is_savable (kind_of o) = false \/ proto_in_range pr = false ->
-  load obj bytes loads q (fst (save obj kind_of picklable bytes empty_file dumps dump_partial dir_exists o path pr f))
+  load obj bytes loads q (fst (save obj kind_of picklable bytes empty_file dumps dump_partial dir_exists w o path pr f))
   = load obj bytes loads q f.
 Proof. exact rejected_load_unchanged. Qed.
 Print Assumptions C15_rejected_load_unchanged.
 
 (** The stronger reading "whatever is not an int in 0..5 is rejected with the file system
-    unchanged" is FALSE of the code: the float 2.0 satisfies [2.0 in range(6)], so the file
+    unchanged" is FALSE of the code as found (write order DumpIntoOpenFile): the float 2.0 satisfies [2.0 in range(6)], so the file
     is opened (created, or truncated: the previous content [old] is lost) and only then
     pickle.dump raises TypeError.  What is left is an empty file, which load cannot read —
     so no USABLE file is written, which is all the property asks.  (Observation O-C15-1.) *)
@@ -50,9 +51,9 @@ Theorem C15_nonint_protocol_unchanged_refuted :
   forall (o : obj) (path : string) (f : fs bytes) (old : bytes),
   is_savable (kind_of o) = true -> dir_exists path = true -> f path = Some old ->
   exists pr, proto_index pr = None /\
-    snd (save obj kind_of picklable bytes empty_file dumps dump_partial dir_exists o path pr f) = Raise TypeError /\
-    fst (save obj kind_of picklable bytes empty_file dumps dump_partial dir_exists o path pr f) path = Some empty_file /\
-    load obj bytes loads path (fst (save obj kind_of picklable bytes empty_file dumps dump_partial dir_exists o path pr f))
+    snd (save obj kind_of picklable bytes empty_file dumps dump_partial dir_exists DumpIntoOpenFile o path pr f) = Raise TypeError /\
+    fst (save obj kind_of picklable bytes empty_file dumps dump_partial dir_exists DumpIntoOpenFile o path pr f) path = Some empty_file /\
+    load obj bytes loads path (fst (save obj kind_of picklable bytes empty_file dumps dump_partial dir_exists DumpIntoOpenFile o path pr f))
       = Raise OtherError.
 Proof.
   intros obj kind_of picklable bytes empty_file dumps dump_partial loads dir_exists C o path f old Hk Hd Ho.
@@ -66,10 +67,10 @@ Theorem C15_save_then_load :
   forall (obj : Type) (kind_of : obj -> kind) (picklable : obj -> bool) (bytes : Type) (empty_file : bytes)
          (dumps dump_partial : obj -> Z -> bytes) (loads : bytes -> res obj) (dir_exists : string -> bool),
   PickleContract obj picklable bytes empty_file dumps loads ->
-  forall (o : obj) (path : string) (p : Z) (f : fs bytes),
+  forall (w : write_order) (o : obj) (path : string) (p : Z) (f : fs bytes),
   is_savable (kind_of o) = true -> 0 <= p <= HIGHEST_PROTOCOL -> dir_exists path = true -> picklable o = true ->
-  snd (save obj kind_of picklable bytes empty_file dumps dump_partial dir_exists o path (PInt p) f) = Ok tt /\
-  load obj bytes loads path (fst (save obj kind_of picklable bytes empty_file dumps dump_partial dir_exists o path (PInt p) f)) = Ok o.
+  snd (save obj kind_of picklable bytes empty_file dumps dump_partial dir_exists w o path (PInt p) f) = Ok tt /\
+  load obj bytes loads path (fst (save obj kind_of picklable bytes empty_file dumps dump_partial dir_exists w o path (PInt p) f)) = Ok o.
 Proof. exact save_then_load. Qed.
 Print Assumptions C15_save_then_load.
 
@@ -82,14 +83,14 @@ Print Assumptions C15_save_then_load.
     function of the state, so all outputs coincide.  Rests on the pickle contract only. *)
 Theorem C15_resume_equiv :
   forall (D : Detector) (picklable : dobj D -> bool) (bytes : Type) (empty_file : bytes)
-         (dumps dump_partial : dobj D -> Z -> bytes) (loads : bytes -> res (dobj D)) (dir_exists : string -> bool),
+         (dumps dump_partial : dobj D -> Z -> bytes) (loads : bytes -> res (dobj D)) (dir_exists : string -> bool) (w : write_order),
   PickleContract (dobj D) picklable bytes empty_file dumps loads ->
   forall (c : d_cfg D) (pre post : list (op (d_in D))) (path : string) (p : Z) (f : fs bytes),
   0 <= p <= HIGHEST_PROTOCOL -> dir_exists path = true -> picklable (c, exec D c pre) = true ->
-  snd (dsave D picklable bytes empty_file dumps dump_partial dir_exists (c, exec D c pre) path (PInt p) f) = Ok tt /\
+  snd (dsave D picklable bytes empty_file dumps dump_partial dir_exists w (c, exec D c pre) path (PInt p) f) = Ok tt /\
   exists c' s',
     dload D bytes loads path
-      (fst (dsave D picklable bytes empty_file dumps dump_partial dir_exists (c, exec D c pre) path (PInt p) f)) = Ok (c', s') /\
+      (fst (dsave D picklable bytes empty_file dumps dump_partial dir_exists w (c, exec D c pre) path (PInt p) f)) = Ok (c', s') /\
     c' = c /\ s' = exec D c pre /\
     trace_from D c' s' post = trace_from D c (exec D c pre) post /\
     trace_from D c' s' post = skipn (length pre) (trace D c (pre ++ post)) /\
@@ -101,18 +102,18 @@ Print Assumptions C15_resume_equiv.
 Theorem C15_resume_equiv_with_history_callback :
   forall (D : Detector) (picklable : dobj (HistD D) -> bool) (bytes : Type) (empty_file : bytes)
          (dumps dump_partial : dobj (HistD D) -> Z -> bytes) (loads : bytes -> res (dobj (HistD D)))
-         (dir_exists : string -> bool),
+         (dir_exists : string -> bool) (w : write_order),
   PickleContract (dobj (HistD D)) picklable bytes empty_file dumps loads ->
   forall (c : d_cfg D) (pre post : list (op (d_in D))) (path : string) (p : Z) (f : fs bytes),
   0 <= p <= HIGHEST_PROTOCOL -> dir_exists path = true -> picklable (c, exec (HistD D) c pre) = true ->
   exists c' s',
     dload (HistD D) bytes loads path
-      (fst (dsave (HistD D) picklable bytes empty_file dumps dump_partial dir_exists (c, exec (HistD D) c pre) path (PInt p) f))
+      (fst (dsave (HistD D) picklable bytes empty_file dumps dump_partial dir_exists w (c, exec (HistD D) c pre) path (PInt p) f))
       = Ok (c', s') /\
     trace_from (HistD D) c' s' post = skipn (length pre) (trace (HistD D) c (pre ++ post)).
 Proof.
-  intros D pk bytes e du dp lo de C c pre post path p f Hp Hd Hk.
-  destruct (resume_equiv (HistD D) pk bytes e du dp lo de C c pre post path p f Hp Hd Hk)
+  intros D pk bytes e du dp lo de w C c pre post path p f Hp Hd Hk.
+  destruct (resume_equiv (HistD D) pk bytes e du dp lo de w C c pre post path p f Hp Hd Hk)
     as (_ & c' & s' & Hl & _ & _ & _ & Ht & _).
   exists c', s'. split; assumption.
 Qed.
@@ -121,14 +122,14 @@ Print Assumptions C15_resume_equiv_with_history_callback.
 (** Saving twice along one history (save, load, continue, save again, load, continue). *)
 Theorem C15_resume_twice :
   forall (D : Detector) (picklable : dobj D -> bool) (bytes : Type) (empty_file : bytes)
-         (dumps dump_partial : dobj D -> Z -> bytes) (loads : bytes -> res (dobj D)) (dir_exists : string -> bool),
+         (dumps dump_partial : dobj D -> Z -> bytes) (loads : bytes -> res (dobj D)) (dir_exists : string -> bool) (w : write_order),
   PickleContract (dobj D) picklable bytes empty_file dumps loads ->
   forall (c : d_cfg D) (pre mid post : list (op (d_in D))) (path : string) (p q : Z) (f : fs bytes),
   0 <= p <= HIGHEST_PROTOCOL -> 0 <= q <= HIGHEST_PROTOCOL -> dir_exists path = true ->
   picklable (c, exec D c pre) = true -> picklable (c, exec D c (pre ++ mid)) = true ->
   exists c1 s1 c2 s2,
-    dload D bytes loads path (fst (dsave D picklable bytes empty_file dumps dump_partial dir_exists (c, exec D c pre) path (PInt p) f)) = Ok (c1, s1) /\
-    dload D bytes loads path (fst (dsave D picklable bytes empty_file dumps dump_partial dir_exists (c1, exec_from D c1 s1 mid) path (PInt q) f)) = Ok (c2, s2) /\
+    dload D bytes loads path (fst (dsave D picklable bytes empty_file dumps dump_partial dir_exists w (c, exec D c pre) path (PInt p) f)) = Ok (c1, s1) /\
+    dload D bytes loads path (fst (dsave D picklable bytes empty_file dumps dump_partial dir_exists w (c1, exec_from D c1 s1 mid) path (PInt q) f)) = Ok (c2, s2) /\
     trace_from D c2 s2 post = skipn (length (pre ++ mid)) (trace D c ((pre ++ mid) ++ post)).
 Proof. exact resume_twice. Qed.
 Print Assumptions C15_resume_twice.
@@ -176,10 +177,22 @@ Theorem C15_unpicklable_raises_after_open :
          (dumps dump_partial : obj -> Z -> bytes) (dir_exists : string -> bool)
          (o : obj) (path : string) (p : Z) (f : fs bytes),
   is_savable (kind_of o) = true -> 0 <= p <= HIGHEST_PROTOCOL -> dir_exists path = true -> picklable o = false ->
-  save obj kind_of picklable bytes empty_file dumps dump_partial dir_exists o path (PInt p) f
+  save obj kind_of picklable bytes empty_file dumps dump_partial dir_exists DumpIntoOpenFile o path (PInt p) f
   = (upd bytes f path (dump_partial o p), Raise PicklingError).
 Proof. exact save_unpicklable. Qed.
 Print Assumptions C15_unpicklable_raises_after_open.
+
+(** In the revision of save() that pickles to memory first (pickle.dumps, then open + write),
+    NO save that fails changes the file system: neither an unpicklable graph nor a float
+    protocol can destroy a previous good save. *)
+Theorem C15_failed_save_leaves_fs_when_dumps_first :
+  forall (obj : Type) (kind_of : obj -> kind) (picklable : obj -> bool) (bytes : Type) (empty_file : bytes)
+         (dumps dump_partial : obj -> Z -> bytes) (dir_exists : string -> bool)
+         (o : obj) (path : string) (pr : pyproto) (f : fs bytes),
+  snd (save obj kind_of picklable bytes empty_file dumps dump_partial dir_exists DumpsThenWrite o path pr f) <> Ok tt ->
+  fst (save obj kind_of picklable bytes empty_file dumps dump_partial dir_exists DumpsThenWrite o path pr f) = f.
+Proof. exact failed_save_leaves_fs. Qed.
+Print Assumptions C15_failed_save_leaves_fs_when_dumps_first.
 
 (* ---------------------------------------------------------------------- non-vacuity *)
 
@@ -199,7 +212,7 @@ Example C15_nonvacuous :
   PickleContract (dobj nv_D) (fun _ => true) (option (dobj nv_D)) None (fun o _ => Some o) nv_loads /\
   exists c' s',
     dload nv_D _ nv_loads "det.pkl"
-      (fst (dsave nv_D (fun _ => true) _ None (fun o _ => Some o) (fun o _ => Some o) (fun _ => true)
+      (fst (dsave nv_D (fun _ => true) _ None (fun o _ => Some o) (fun o _ => Some o) (fun _ => true) DumpIntoOpenFile
               (nv_c, exec nv_D nv_c nv_pre) "det.pkl" (PInt 3) (fun _ => None))) = Ok (c', s') /\
     map (fun s => (d_drift nv_D s, d_warning nv_D s, d_ninst nv_D s, length (snd s))) (trace_from nv_D c' s' nv_post)
     = [(true, false, 5%Z, 5%nat); (true, false, 6%Z, 6%nat); (false, false, 0%Z, 0%nat);
@@ -208,7 +221,7 @@ Proof.
   split; [apply contract_satisfiable|].
   (* obtained FROM the theorem, instantiated with the identity pickle *)
   destruct (resume_equiv nv_D (fun _ => true) (option (dobj nv_D)) None (fun o _ => Some o) (fun o _ => Some o)
-              nv_loads (fun _ => true) (contract_satisfiable _ _) nv_c nv_pre nv_post "det.pkl" 3 (fun _ => None))
+              nv_loads (fun _ => true) DumpIntoOpenFile (contract_satisfiable _ _) nv_c nv_pre nv_post "det.pkl" 3 (fun _ => None))
     as (_ & c' & s' & Hl & -> & -> & _ & _ & _).
   - unfold HIGHEST_PROTOCOL. split; discriminate.
   - reflexivity.
